@@ -122,6 +122,8 @@ func viaKey(v *Violation) string {
 }
 
 var solverDiff string
+var specialViol int
+var specialRep interface{}
 
 func runCheck(args []string) int {
 	id := args[0]
@@ -333,6 +335,27 @@ func runCheck(args []string) int {
 		}
 	}
 
+	// ---- special static passes
+	var special interface{}
+	if spec.Special == "error-arity" {
+		rep, err := staticErrorArity(env)
+		if err != nil {
+			inconcl = append(inconcl, "error-arity pass: "+err.Error())
+		} else {
+			special = rep
+			fmt.Fprintf(os.Stderr, "error-arity: %d Format sites, %d bare-code sites, %d dynamic, %d codes, %d templates, %d problems\n", rep.Sites, rep.BareSites, rep.Dynamic, rep.Codes, rep.Templates, len(rep.Problems))
+			for i, pr := range rep.Problems {
+				dir := filepath.Join(verifDir, "evidence", "replays", fmt.Sprintf("%s-arity-%s", id, shortHash(pr)))
+				os.MkdirAll(dir, 0o755)
+				os.WriteFile(filepath.Join(dir, "README.txt"), []byte("property: "+id+" (message templates and argument lists agree)\n"+pr+"\n\nreproduce: cd /verif && bin/check "+id+"\n"), 0o644)
+				if i < 10 {
+					fmt.Printf("VIOLATION property=%s replay=%s\n  %s\n", id, dir, pr)
+				}
+				specialViol++
+			}
+		}
+	}
+
 	// ---- solver diff: sampled queries re-decided by z3 4.8.12 and cvc5
 	diffChecked, diffBad := RunDiff(diffSamples)
 	for _, d := range diffBad {
@@ -342,6 +365,9 @@ func runCheck(args []string) int {
 
 	// ---- classify
 	exit := 0
+	if specialViol > 0 {
+		exit = 1
+	}
 	knownSeen := map[string]bool{}
 	nviol := 0
 	replayRoot := filepath.Join(verifDir, "evidence", "replays")
@@ -386,6 +412,8 @@ func runCheck(args []string) int {
 			fmt.Println("INCONCLUSIVE", s)
 		}
 	}
+	specialRep = special
+	nviol += specialViol
 	writeEvidence(id, tier, seed, hev, samples, fnHits, inconcl, spec, time.Since(t0), validated, nviol, knownSeen, env)
 	fmt.Fprintf(os.Stderr, "check %s tier=%s: %d violation(s), %d known finding(s), %d inconclusive note(s), %.1fs\n", id, tier, nviol, len(knownSeen), len(inconcl), time.Since(t0).Seconds())
 	return exit
@@ -462,6 +490,7 @@ func writeEvidence(id, tier string, seed int, hev []harnessEvidence, samples []i
 		"bounds":                        spec.Bounds,
 		"solver":                        "z3 5.1.0 (z3-new) over a pipe, one process per worker, no set-logic",
 		"solver_diff":                   solverDiff,
+		"static_pass":                   specialRep,
 	}
 	ev := map[string]interface{}{
 		"property_id": id,
